@@ -11,6 +11,10 @@ deviation is shown to violate one of them.
     events injected as real (encoded and decoded) messages / socket conditions / API calls; after every step
     the projection (reported state, receive queue, flags, messages written to the socket, messages handed to
     the application, thread liveness, transport release) must equal a TLC successor.
+ Pair: spec/Pair.tla composes a client and a server instance of Psm through two FIFO channels (the scenario of the
+    repository's tests/test_setup.py with every interleaving); TLC checks OpenOrder, DeliveredWereSent, the agreement of
+    the two ends in every resting state and, under fairness, that both open and that a stop closes both; the graph is
+    toured on TWO real nodes in one scheduler whose sockets the harness cross-wires frame by frame (adapters/pair.py).
 """
 import json
 import os
@@ -200,9 +204,53 @@ def deviations_violate(rep):
 
 def _tour_job(job):
     dot, role, max_total = job
-    ad = PsmAdapter(role)
-    res = graphwalk.tour(dot, ad, max_steps_per_run=60, max_total=max_total)
+    if role == "pair":
+        from . import pair
+        ad = pair.PairAdapter()
+    else:
+        ad = PsmAdapter(role)
+    res = graphwalk.tour(dot, ad, max_steps_per_run=80 if role == "pair" else 60, max_total=max_total)
     return role, res.__dict__
+
+
+def pair_cfg(maxq, maxs, dev, invs=(), props=(), fair=False):
+    from . import pair
+    sz = pair.sizes()
+    if sz["client"] != sz["server"]:
+        raise tlc.TlcError("pair harness: the two nodes' base messages must have equal sizes (one set of size constants in Pair.tla)")
+    return (f"SPECIFICATION {'FairSpec' if fair else 'Spec'}\nCONSTANTS MaxQ = {maxq}\n MaxS = {maxs}\n Limit = {LIMIT}\n"
+            + "".join(f" {k} = {v}\n" for k, v in sz["client"].items()) + f" PairDeviations = {dev}\n"
+            + "".join(f"INVARIANT {i}\n" for i in invs) + "".join(f"PROPERTY {q}\n" for q in props) + "CHECK_DEADLOCK FALSE\n")
+
+
+def pair_stage(rep, wd, quick):
+    """spec/Pair.tla: client and server composed through two channels, model-checked, and toured on two real nodes"""
+    asis = '{"D_NoClosingTimeout"}'
+    big = (1, 0) if quick else (2, 1)
+    # the tree as it is (no timeout in Closing): the only resting state in which the two ends disagree is a simultaneous stop
+    res, _ = tlc.run("Pair", pair_cfg(big[0], big[1], asis, invs=("OpenOrder", "DeliveredWereSent", "AgreeButSimultaneousStop")), workers=16, timeout=3000)
+    tlc.must_ok(res, "Pair as-is safety")
+    rep.tlc(f"Pair as-is MaxQ={big[0]} MaxS={big[1]} safety", res)
+    res, _ = tlc.run("Pair", pair_cfg(1, 0, asis, props=("BothOpen", "StopEndsButSimultaneous"), fair=True), workers=16, timeout=3000)
+    tlc.must_ok(res, "Pair as-is liveness")
+    rep.tlc("Pair as-is MaxQ=1 MaxS=0 liveness", res)
+    # vacuity / documentation: Agree itself fails without a timeout in Closing, and holds with one
+    res, _ = tlc.run("Pair", pair_cfg(1, 0, asis, invs=("Agree",)), workers=8, timeout=1200)
+    if res.violated != "Agree":
+        raise tlc.TlcError(f"Pair: expected Agree to fail on the tree as it is (simultaneous stop), got {res.violated}")
+    res, _ = tlc.run("Pair", pair_cfg(1, 0, "{}", invs=("Agree",), props=("StopClosesBoth",), fair=True), workers=16, timeout=1200)
+    tlc.must_ok(res, "Pair with a Closing timeout")
+    rep.tlc("Pair with a timeout in Closing (RFC 6733): Agree, StopClosesBoth", res)
+    rep.notes["pair_observation"] = ("two bromelia nodes that both call close() at the same moment stay in Closing for ever: Closing drops the other "
+                                     "side's DPR and has no timeout (RFC 6733 leaves Closing by timeout). Outside the listed statements (each node "
+                                     "alone follows the machine as implemented; the peer of C08 answers a DPR or disconnects); shown by TLC on "
+                                     "spec/Pair.tla (Agree fails only in that state) and reproduced on two real nodes by the tours.")
+    dot = os.path.join(wd, "pair.dot")
+    small = (1, 0) if quick else (1, 1)
+    res, _ = tlc.run("Pair", pair_cfg(small[0], small[1], asis), wd=wd, workers=8, args=["-dump", "dot,actionlabels", dot], timeout=2400)
+    tlc.must_ok(res, "Pair dump")
+    rep.tlc(f"Pair dump MaxQ={small[0]} MaxS={small[1]}", res)
+    return (dot, "pair", 1500 if quick else None)
 
 
 def run_tours(rep, jobs):
@@ -220,6 +268,8 @@ def run_tours(rep, jobs):
         for hist, label, verdict, detail in r["mismatches"]:
             rep.violation(f"after {' ; '.join(hist[-8:]) or '(start)'} then {label}: {detail}",
                           {"kind": "history", "role": role, "ops": hist + [label]})
+        if role == "pair":
+            rep.notes["pair_tour"] = {"groups": r["groups"], "reached_states": r["states"]}
 
 
 def run(rep, for_c07=False):
@@ -247,6 +297,8 @@ def run(rep, for_c07=False):
             rep.tlc(f"Psm dump {role}", res)
             # quick tier of C07: a bounded number of tour steps (coverage is reported); thorough: the whole graph
             jobs.append((dot, role, 2500 if (for_c07 and quick) else None))
+        if not for_c07:
+            jobs.append(pair_stage(rep, wd, quick))
         run_tours(rep, jobs)
     finally:
         tlc.cleanup(wd)
@@ -259,7 +311,11 @@ def run(rep, for_c07=False):
 def replay(rep, path):
     r = json.load(open(path))["replay"]
     nodemod.ensure_installed(0)
-    ad = PsmAdapter(r.get("role", "client"))
+    if r.get("role") == "pair":
+        from . import pair
+        ad = pair.PairAdapter()
+    else:
+        ad = PsmAdapter(r.get("role", "client"))
     h = ad.fresh()
     p = None
     try:
@@ -267,7 +323,10 @@ def replay(rep, path):
             op, args = graphwalk.parse_label(lab)
             ad.apply(h, op, args, None)
             p = ad.project(h)
-            rep.notes.setdefault("replayed", []).append({"op": lab, "st": p["st"], "out": p["out"], "dlv": p["dlv"], "running": p["running"]})
+            if "st" in p:
+                rep.notes.setdefault("replayed", []).append({"op": lab, "st": p["st"], "out": p["out"], "dlv": p["dlv"], "running": p["running"]})
+            else:
+                rep.notes.setdefault("replayed", []).append({"op": lab, "client": p["c"]["st"], "server": p["s"]["st"], "c2s": p["c"]["wire"], "s2c": p["s"]["wire"]})
         if p and p["dead"]:
             rep.violation(f"thread(s) died: {p['dead']}", r)
     except BaseException as e:
